@@ -381,6 +381,10 @@ func (s *Server) newSocket(
 }
 
 func (s *Server) newHandshakePacket(sid string, upgrades []string) (*parser.Packet, error) {
+	if upgrades == nil {
+		// `upgrades` is an array in the protocol. A nil slice would be encoded as null.
+		upgrades = []string{}
+	}
 	data, err := json.Marshal(&parser.HandshakeResponse{
 		SID:          sid,
 		Upgrades:     upgrades,
